@@ -284,7 +284,8 @@ def concurrent_subcall(chk):
             go.set()
             ta.join(20)
             tb.join(20)
-            progs.REC.__dict__.pop("enter", None)
+            # (the recorder hook is part of the program the bodies call: it stays in place until the record has been read, so
+            # that the functions' versions are the same for the calls and for the query)
             rec, _ = w.op(["memento", 3, 1, 0])
         finally:
             progs.REC.__dict__.pop("enter", None)
